@@ -327,14 +327,13 @@ Section BRIDGE2.
   Qed.
 
   (* | drop ... : the labels body is wrapped in mapFilter(<lambda>, .) *)
-  Definition drop_state (ps : list (string * option string)) (t : lstate) : lstate := (fst t, drop_stage ps (snd t)).
+  Definition drop_state (ps : list (string * option string)) (t : lstate) : lstate := (fst t, drop_stage hash_labels ps (snd t)).
   Lemma colsem_drop e_ts e_fp e_lab e_str e_val r t ps :
     colsem e_ts e_fp e_lab e_str e_val r t ->
-    (forall b, alias_env b -> EV e_fp [(b ++ r)%list] = Some (VInt (p_fp (snd t)))) ->
-    colsem e_ts e_fp (map_drop_filter e_lab ps) e_str e_val r (drop_state ps t).
+    colsem e_ts fp_of_labels (map_drop_filter e_lab ps) e_str e_val r (drop_state ps t).
   Proof.
-    intros [Hts Hfp Hlab Hstr Hval] Hfp0. constructor; cbn [drop_state drop_stage fst snd p_labels p_fp]; try assumption.
-    - intros b Hb _. now apply Hfp0.
+    intros [Hts Hfp Hlab Hstr Hval]. constructor; cbn [drop_state drop_stage fst snd p_labels p_fp]; try assumption.
+    - intros b Hb Hl. rewrite ev_fp_of_labels, (lookup_app_some _ _ _ _ Hl). reflexivity.
     - intros b Hb Hl. unfold map_drop_filter. rewrite ev_map_filter, (Hlab b Hb Hl), drop_specs_clauses. reflexivity.
   Qed.
 
@@ -579,25 +578,29 @@ Section BRIDGE2.
     - intros Hs t Ht. cbn [json_state fst]. now apply Hss.
   Qed.
 
-  Lemma sinv_drop sel done m swap ps : sinv sel done m swap -> (m = MFresh \/ m = MDropped) ->
-    sinv (set_cols (patch_col (s_cols sel) "labels" (fun l => map_drop_filter l ps)) sel) (done ++ [PDrop ps]) MDropped swap.
+  Definition drop_patch (ps : list (string * option string)) (req : select) : select :=
+    let req1 := set_cols (patch_col (s_cols req) "labels" (fun l => map_drop_filter l ps)) req in
+    set_cols (patch_col (s_cols req1) "fingerprint" (fun _ => fp_of_labels)) req1.
+
+  Lemma sinv_drop sel done m swap ps : sinv sel done m swap -> (m = MFresh \/ m = MParsed) ->
+    sinv (drop_patch ps sel) (done ++ [PDrop ps]) MParsed swap.
   Proof.
-    intros [e_ts [e_fp [e_lab [e_str [e_val [w [T [src [out [keep [Hf [Hsrc [Hcs [Hstr [Hw [Hperm [Hm [Hfree Hss]]]]]]]]]]]]]]]]]] Hmode.
+    intros [e_ts [e_fp [e_lab [e_str [e_val [w [T [src [out [keep [Hf [Hsrc [Hcs [Hstr [Hw [Hperm [Hm [_ Hss]]]]]]]]]]]]]]]]]] Hmode.
     assert (Ew : w = None) by (apply Hm; destruct Hmode as [->| ->]; discriminate). subst w.
-    specialize (Hfree Hmode).
-    exists e_ts, e_fp, (map_drop_filter e_lab ps), e_str, e_val, None, T, src, (fun t => drop_state ps (out t)), keep.
+    exists e_ts, fp_of_labels, (map_drop_filter e_lab ps), e_str, e_val, None, T, src, (fun t => drop_state ps (out t)), keep.
     split; [|split; [|split; [|split; [|split; [|split; [|split; [|split]]]]]]].
-    - rewrite (f_cols _ _ _ _ _ Hf).
-      replace (patch_col (cols5 swap e_ts e_fp e_lab e_str e_val) "labels" (fun l => map_drop_filter l ps))
-        with (cols5 swap e_ts e_fp (map_drop_filter e_lab ps) e_str e_val) by (destruct swap; reflexivity).
-      eapply flat5_set_cols. exact Hf.
+    - unfold drop_patch. cbn [s_cols set_cols]. rewrite (f_cols _ _ _ _ _ Hf).
+      replace (patch_col (patch_col (cols5 swap e_ts e_fp e_lab e_str e_val) "labels" (fun l => map_drop_filter l ps))
+                 "fingerprint" (fun _ => fp_of_labels))
+        with (cols5 swap e_ts fp_of_labels (map_drop_filter e_lab ps) e_str e_val) by (destruct swap; reflexivity).
+      eapply flat5_set_cols. eapply flat5_set_cols. exact Hf.
     - exact Hsrc.
-    - intros t Ht. apply colsem_drop; [now apply Hcs|now apply Hfree].
+    - intros t Ht. apply (colsem_drop e_ts e_fp e_lab e_str e_val). now apply Hcs.
     - intros t Ht. cbn [drop_state fst]. now apply Hstr.
     - exact Hw.
     - rewrite (live_drop done ps), <- (map_map out (drop_state ps)). now apply Permutation_map.
     - reflexivity.
-    - intros _ t Ht b Hb. cbn [drop_state drop_stage snd p_fp]. now apply Hfree.
+    - intros [H|H]; discriminate.
     - intros Hs t Ht. cbn [drop_state fst]. now apply Hss.
   Qed.
 
